@@ -1987,7 +1987,8 @@ pub fn vh_certwalk(a: &Args) {
                         Op::Reset { region: region.clone(), front: fr.into(), classc, board: 0, bias_sb: 0, bias_retries: 1,
                                     lead: 10, buffer: 10, offset: 0, duration: 500, session: None },
                         Op::JoinAbp { nwk: key, app: key, addr },
-                        Op::SetDr { dr: if pl.len() > 45 { 5 } else { [0u8, 3, 5][pi % 3] } },
+                        // a data rate the region defines for uplinks (long answers need the fastest one)
+                        Op::SetDr { dr: { let top: u8 = if region == "US915" { 4 } else { 5 }; if pl.len() > 45 { top } else { [0u8, 3, top][pi % 3] } } },
                     ];
                     let mut idx = 0usize;
                     let pl = pl.clone();
